@@ -476,10 +476,85 @@ def merge(chunks, real_text):
     for a, b, size in sm.get_matching_blocks():
         for k in range(size):
             image[a + k] = b + k
+    # "slider" correction: a deleted run of r0 tokens that can be shifted without changing the diff (the token before the
+    # run equals its last token, or the first equals the one after) is moved to where it covers whole statements, i.e. it
+    # starts right after `;` `{` `}` and ends with `;` or `}`.  Without this, deleting the second of two similar calls
+    # is reported as deleting the tail of the first and the head of the second, and annotations in between lose both anchors.
+    partner = {}
+    stack = []
+    for i_, tok in enumerate(r0):
+        if tok in ('(', '[', '{'):
+            stack.append(i_)
+        elif tok in (')', ']', '}') and stack:
+            j_ = stack.pop()
+            partner[i_] = j_
+            partner[j_] = i_
+
+    def _score(a, b):
+        sc = (1 if a > 0 and r0[a - 1] in (';', '{', '}') else 0) + (1 if b > 0 and r0[b - 1] in (';', '}') else 0)
+        # a deleted bracket whose partner is deleted as well: the pair went away together; a deleted bracket whose partner
+        # survives would leave the text unbalanced
+        for i_ in range(a, b):
+            if r0[i_] in ('(', ')', '[', ']', '{', '}'):
+                q = partner.get(i_)
+                if q is not None:
+                    sc += 2 if (a <= q < b or q not in image) else -2
+        return sc
+
+    def _runs():
+        out_, a_ = [], 0
+        while a_ < n0:
+            if a_ in image:
+                a_ += 1
+                continue
+            b_ = a_
+            while b_ < n0 and b_ not in image:
+                b_ += 1
+            if a_ > 0 and b_ < n0 and (a_ - 1) in image and image[b_] == image[a_ - 1] + 1:
+                out_.append((a_, b_))
+            a_ = b_
+        return out_
+
+    n0 = len(r0)
+    done_runs = set()
+    for _ in range(200):
+        todo_ = [r_ for r_ in _runs() if r_ not in done_runs]
+        if not todo_:
+            break
+        a, b = min(todo_, key=lambda r_: (r_[1] - r_[0], r_[0]))   # shortest first: lone brackets decide before the runs that contain their partners
+        best, best_shift = _score(a, b), 0
+        k = 0
+        saved = dict(image)
+        # forward shifts (evaluated on a scratch copy so that the partner test sees the shifted state)
+        while b + k < n0 and (b + k) in saved and r0[a + k] == r0[b + k] and (k == 0 or saved[b + k] == saved[b + k - 1] + 1):
+            image[a + k] = image.pop(b + k)
+            k += 1
+            sc = _score(a + k, b + k)
+            if sc > best:
+                best, best_shift = sc, k
+        image.clear()
+        image.update(saved)
+        k = 0
+        while a - 1 - k >= 0 and (a - 1 - k) in saved and r0[a - 1 - k] == r0[b - 1 - k] and (k == 0 or saved[a - 1 - k] == saved[a - k] - 1):
+            image[b - 1 - k] = image.pop(a - 1 - k)
+            k += 1
+            sc = _score(a - k, b - k)
+            if sc > best:
+                best, best_shift = sc, -k
+        image.clear()
+        image.update(saved)
+        if best_shift > 0:
+            for t in range(best_shift):
+                image[a + t] = image.pop(b + t)
+        elif best_shift < 0:
+            for t in range(-best_shift):
+                image[b - 1 - t] = image.pop(a - 1 - t)
+        done_runs.add((a + best_shift, b + best_shift))
     before = {}  # r1 index -> [text]   (emit before that token)
     after = {}   # r1 index -> [text]
     suppress = set()
     conflicts = []
+    dropped = []
     n1 = len(r1)
     for e in elems:
         if e[0] == 'ins':
@@ -498,8 +573,29 @@ def merge(chunks, real_text):
                 choice = ('before', nxt)
             elif prv is not None:
                 choice = ('after', prv)
+            if choice is None and 0 < p < len(r0):
+                # both neighbours were deleted: if the whole deleted run around the insertion is bracket-balanced (a complete
+                # statement or expression went away), the insertion annotated code that no longer exists - it goes with it
+                a = p
+                while a > 0 and (a - 1) not in image:
+                    a -= 1
+                b = p
+                while b < len(r0) and b not in image:
+                    b += 1
+                depth, ok = 0, True
+                for tok in r0[a:b]:
+                    if tok in ('(', '[', '{'):
+                        depth += 1
+                    elif tok in (')', ']', '}'):
+                        depth -= 1
+                        if depth < 0:
+                            ok = False
+                            break
+                if ok and depth == 0:
+                    dropped.append({'kind': 'annotation-of-deleted-code', 'text': t.strip()[:80], 'deleted': ' '.join(r0[a:b])[:120]})
+                    continue
             if choice is None:
-                conflicts.append({'kind': 'insertion', 'text': t.strip()[:80]})
+                conflicts.append({'kind': 'insertion', 'text': t.strip()[:80], 'contract': bool(re.search(r'\b(requires|ensures|invariant|decreases)\b', t))})
             elif choice[0] == 'before':
                 before.setdefault(choice[1], []).append(t)
             else:
@@ -527,6 +623,7 @@ def merge(chunks, real_text):
             out.append(' ' + t + ('\n' if '//' in t else ' '))
         pos = tok[3]
     out.append(real_text[pos:])
+    merge.last_dropped = dropped
     return ''.join(out), conflicts
 
 
@@ -584,6 +681,9 @@ def generate(unit_path, out_path, spec_root=None):
             for c in conflicts:
                 c['block'] = name
             report['conflicts'].extend(conflicts)
+            for c in getattr(merge, 'last_dropped', []):
+                c['block'] = name
+                report.setdefault('dropped_with_code', []).append(c)
             report['changed'].append(name)
             emit(body.split('\n'), name)
         emit([b['footer']], None)
